@@ -84,6 +84,29 @@ CLAIMED = {
           'Histories of ~660 calls over >256 distinct keys per cache are compared call by call with cold-cache execution.'),
     note='Trusted: the static call graph (name-based, over-approximating; dynamic dispatch through set_fn/get_fn/read_fn resolved to all dtype functions), validated by the warm-vs-cold differential run; lru_cache modelled as an association list.',
     technique='Coq proof (generic memoisation theorem) + generated obligations from a call-graph translator + warm/cold differential', design='§5 C09'),
+ 'C02': dict(
+    text=('Coq theorems for every width n>0 and every in-range value: unsigned and two\'s-complement encoding produce exactly n bits, equal to the MSB-first canonical encoding, and decode back; every non-empty pattern is the canonical encoding of its value; '
+          'little-endian is the byte reversal of big-endian; bytes round-trip. The dtype register (names, signedness, allowed lengths, multipliers, setters/getters, native-endian aliases by sys.byteorder) is regenerated from __init__.py on every run and bridged to the model table. '
+          'Six creation routes x five reading routes x four classes are checked against int.to_bytes/format()/struct and the model.'),
+    note='PARTIAL: floats are tied to struct by the oracle only (bit patterns / float.hex compared); route agreement rests on correspondence. Trusted: translator tools/gen/dtypes.py (fail-closed, bridged by reflexivity).',
+    technique='Coq proof (Z arithmetic over pow/mod) + generated table bridge + vm_compute correspondence', design='§5 C02'),
+ 'C11': dict(
+    text=('Spec in Coq of every format (sign/exponent/mantissa, subnormals, special codes) over exact dyadic values, and of encoding as round-to-nearest-even with the IEEE overflow rule. On every run the nine 65536-entry encode tables, nine decode tables, clamp codes and format parameters '
+          'are regenerated from luts.py/mxfp.py/fp8.py and coqc checks, exhaustively by vm_compute (bounds stated: 2^16 inputs, 2^bits codes): table[h] is the spec code for every half input, every code decodes to the format value, clamp codes are the overflow codes, decode-then-encode is the identity on non-NaN codes. '
+          'Proved for all floats: the library returns the spec code of the half-precision rounding or the overflow code; the rounding primitive is nearest with ties to even. mxint/e8m0/bfloat and scaled dtypes are checked against exact fractions; the binary64->binary16 model is compared with struct on every case.'),
+    note='Trusted: translator tools/gen/luts.py (zlib decompression, run-length emission re-expanded and compared); half_rne as the model of struct.pack(">e") (correspondence-tested); mxint is modelled on exact values (the float additions of the library are assumed exact: oracle-checked incl. midpoints +-1ulp).',
+    technique='Coq spec + exhaustive vm_compute obligations over generated tables, lifted by forallb_forall', design='§5 C11'),
+ 'C15': dict(
+    text=('Coq theorem int_classification: for every integer kind, every width n>0 and every value, creation succeeds with exactly n bits iff the value is in range and otherwise raises CreationError; zero/missing/negative lengths and windows beyond the data are rejected. '
+          'All dtypes x valid/invalid lengths x values at, inside and outside each limit x seven routes (incl. property assignment and Array element assignment, whose targets must stay unchanged) are checked by the oracle and, for integers, against the model.'),
+    note='Trusted: hand model of get_dtype / setters tied by correspondence; non-integer dtypes are oracle-only.',
+    technique='Coq proof (lia over Z.pow) + vm_compute correspondence + oracle', design='§5 C15'),
+ 'C18': dict(
+    text=('Generated obligation (vm_compute over the tables extracted from utils.py each run): every struct code in REPLACEMENTS_BE/LE/NE names the dtype of struct\'s standard size, signedness and that table\'s endianness, and PACK_CODE_SIZE agrees. '
+          'Codec theorems shared with C02 (little-endian = byte-reversed big-endian, byte reversal involutive, whole-byte round trip). pack/unpack vs struct, Array vs struct/array.array (kind and width), le/be/ne relations and byteswap are checked on every run. '
+          'Known finding D19: \'@\' means \'=\' (documented and pinned by the test-suite).'),
+    note='Trusted: the real struct and array modules as reference; translator tools/gen/dtypes.py.',
+    technique='Generated finite obligations (vm_compute) + Coq codec theorems + oracle against struct/array', design='§5 C18'),
 }
 
 def main():
